@@ -132,18 +132,19 @@ func (r *Report) Finish() int {
 	}
 	sort.Strings(keys)
 	res := map[string]interface{}{
-		"property_id":         r.Property,
-		"tier":                r.Tier,
-		"seed":                r.Seed,
-		"evaluations":         r.Evaluations,
-		"distinct_nontrivial": len(r.distinct),
-		"rule":                r.Rule,
-		"samples":             r.Samples,
-		"op_mix":              r.OpMix,
-		"extra":               r.Extra,
-		"violations":          r.Violations,
-		"known_findings":      r.Known,
-		"wall_s":              time.Since(r.Start).Seconds(),
+		"property_id":              r.Property,
+		"tier":                     r.Tier,
+		"seed":                     r.Seed,
+		"evaluations":              r.Evaluations,
+		"distinct_nontrivial":      len(r.distinct),
+		"rule":                     r.Rule,
+		"samples":                  r.Samples,
+		"op_mix":                   r.OpMix,
+		"extra":                    r.Extra,
+		"model_requests_timed_out": modelTimeouts,
+		"violations":               r.Violations,
+		"known_findings":           r.Known,
+		"wall_s":                   time.Since(r.Start).Seconds(),
 	}
 	b, _ := json.MarshalIndent(res, "", " ")
 	if r.out != "" {
